@@ -375,12 +375,6 @@ open SwimVerif.Recon
 
 /-! ## canonical streams of equal values agree event by event -/
 
-/-- Two event lists agree event by event. -/
-def evsAgree : List Event → List Event → Bool
-  | [], [] => true
-  | e :: a, f :: b => e.beq f && evsAgree a b
-  | _, _ => false
-
 theorem evsAgree_refl (a : List Event) : evsAgree a a = true := by
   induction a with
   | nil => rfl
